@@ -215,6 +215,11 @@ def run_instances(module, instances, total_budget_s, stop_on_violation=True, log
                 if st.outstanding == 0 and not any(p[0] == name for p in pending):
                     st.finished = time.time()
             inflight = still
+            # an instance is finished when nothing of it is in flight or waiting (also after its budget made us drop its tasks)
+            waiting = {p_[0] for p_ in pending}
+            for nm, st_ in states.items():
+                if st_.finished is None and st_.started is not None and st_.outstanding == 0 and nm not in waiting:
+                    st_.finished = time.time()
             if stop and not inflight:
                 break
             if time.time() - t0 > total_budget_s + 150 and inflight:
